@@ -204,4 +204,13 @@ TARGETS = {
                  methods={"should_break": dict(params={"context": "BreakpointContext"}, pure=True)}),
         ],
     ),
+    # cache keys are integers; an OrderedDict used as an ordered set stores 0 for None
+    "EvictionGen": dict(
+        out="Gen/EvictionGen.v", tie="C16/GenTie.v",
+        header="From HS Require Import Base.Prelude Base.PyLib.",
+        classes=[
+            dict(file="happysimulator/components/datastore/eviction_policies.py", cls="LRUEviction", fields={"_order": "dict"}, methods={"on_access": dict(params={"key": "Z"}), "on_insert": dict(params={"key": "Z"}), "on_remove": dict(params={"key": "Z"}), "evict": dict(ret="opt Z"), "clear": {}}),
+            dict(file="happysimulator/components/datastore/eviction_policies.py", cls="FIFOEviction", fields={"_order": "list Z"}, methods={"on_access": dict(params={"key": "Z"}), "on_insert": dict(params={"key": "Z"}), "on_remove": dict(params={"key": "Z"}), "evict": dict(ret="opt Z"), "clear": {}}),
+        ],
+    ),
 }
